@@ -51,18 +51,21 @@ package storage
 //@   invariant[C08] SeqInv(m) && m.memTablePool.maxStamp == old(m.memTablePool.maxStamp) && m.lastSeqNum >= old(m.lastSeqNum) && lockset(m.mu, W)
 
 //@ func (*Manager).Put
+//@   nonblocking[C15]
 //@   requires SeqInv(m) && lockset()
 //@   ensures[C08] SeqInv(m)
 //@   ensures[C08] err == nil ==> m.memTablePool.lastStamp > old(m.memTablePool.maxStamp) && m.memTablePool.maxStamp == m.memTablePool.lastStamp
 //@   ensures[C08,C06] err != nil ==> m.memTablePool.maxStamp == old(m.memTablePool.maxStamp)
 //@   ensures[C08] m.lastSeqNum >= old(m.lastSeqNum)
 //@ func (*Manager).Delete
+//@   nonblocking[C15]
 //@   requires SeqInv(m) && lockset()
 //@   ensures[C08] SeqInv(m)
 //@   ensures[C08] err == nil ==> m.memTablePool.lastStamp > old(m.memTablePool.maxStamp) && m.memTablePool.maxStamp == m.memTablePool.lastStamp
 //@   ensures[C08,C06] err != nil ==> m.memTablePool.maxStamp == old(m.memTablePool.maxStamp)
 //@   ensures[C08] m.lastSeqNum >= old(m.lastSeqNum)
 //@ func (*Manager).ApplyBatch
+//@   nonblocking[C15]
 //@   requires SeqInv(m) && lockset()
 //@   ensures[C08] SeqInv(m)
 //@   ensures[C08] err == nil ==> m.memTablePool.maxStamp == old(m.memTablePool.maxStamp) || (m.memTablePool.maxStamp == m.memTablePool.lastStamp && m.memTablePool.lastStamp > old(m.memTablePool.maxStamp))
@@ -99,6 +102,7 @@ package storage
 //@ predicate NoMemHas(m *Manager, k bstr) = !MTHas(m.memTablePool.active, k) && (forall i int :: 0 <= i && i < len(m.memTablePool.immutables) ==> !MTHas(m.memTablePool.immutables[i], k))
 //@ predicate PoolOK(m *Manager) = m.memTablePool != nil && m.memTablePool.active != nil && lockstate(m.memTablePool.mu) == 0 && lockstate(m.memTablePool.active.mu) == 0 && m.memTablePool.active.skipList != nil && (forall i int :: 0 <= i && i < len(m.memTablePool.immutables) ==> m.memTablePool.immutables[i] != nil && m.memTablePool.immutables[i].skipList != nil && lockstate(m.memTablePool.immutables[i].mu) == 0)
 //@ func (*Manager).Get
+//@   nonblocking[C15]
 //@   requires lockset() && PoolOK(m) && !m.closed && (forall i int :: 0 <= i && i < len(m.sstables) ==> m.sstables[i] != nil)
 //@   ensures[C01] MTHas(m.memTablePool.active, bstr(key)) && MTDel(m.memTablePool.active, bstr(key)) ==> err == ErrKeyNotFound
 //@   ensures[C01] MTHas(m.memTablePool.active, bstr(key)) && !MTDel(m.memTablePool.active, bstr(key)) ==> err == nil && bstr(result0) == MTVal(m.memTablePool.active, bstr(key))
